@@ -436,8 +436,10 @@ def twin_history_in_fresh_processes(run, pairs, scratch):
     procs = []
     for order in ("alone", "twin_first"):
         outp = os.path.join(scratch, f"twin-{order}.json")
+        # the two interpreters also differ in their string-hash seed: a trace must not depend on set / dict-of-str order
         procs.append((order, outp, subprocess.Popen([sys.executable, "-c", CHILD_CODE.format(verif=boot.VERIF_DIR), spec, outp, order],
-                                                    env=boot.child_env({}), cwd=scratch, stdout=subprocess.PIPE, stderr=subprocess.STDOUT)))
+                                                    env=boot.child_env({"PYTHONHASHSEED": "0" if order == "alone" else "4242"}), cwd=scratch,
+                                                    stdout=subprocess.PIPE, stderr=subprocess.STDOUT)))
     for order, outp, p in procs:
         try:
             log, _ = p.communicate(timeout=300)
